@@ -412,6 +412,6 @@ int aln_profileprofile_meetup(struct aln_mem* m,int old_cor[], int* meet,int* t,
         *t = transition;
         *score = max;
 
-        KALIGN_VERIF_EVENT(KV_EV_MEET_END, m, NULL, 2, c, transition);
+        KALIGN_VERIF_EVENT(KV_EV_MEET_END, m, &max, 2, c, transition);
         return OK;
 }
